@@ -20,7 +20,8 @@ from vlib import Infra
 ASSUME = [
     "the log answers a get-entries request for [s, e] with k entries starting at s, 1 <= k <= e-s+1, or with an error; "
     "servers returning no entries or more than asked are outside the property's domain and are not generated",
-    "transient errors are counted (an error budget per run), never timed; BatchSize >= 1, ParallelFetch >= 1, StartIndex >= 0",
+    "transient errors (429, 5xx, network, Unavailable, and requests failing with a deadline / cancellation of their own "
+    "while the run's context is alive) are counted (an error budget per run), never timed; BatchSize >= 1, ParallelFetch >= 1, StartIndex >= 0",
     "tree heads follow the published size (monotone); entries are tokens in the specification, the harness attaches real "
     "X.509 / precertificate leaves built with harness/ref and compares bytes",
     "model bounds: exhaustive for tree sizes <= 4 (quick) / 5 (thorough) with growth, batch 1..3, 1..2 fetchers, <= 2 errors; "
